@@ -83,6 +83,30 @@ def run(ctx):
     fc.check_lifecycle_transfer(rep, prog, "PD-5", fields={"port_state", "peer_delay_state", "mean_delay",
                                                            "pdelay_seq_ids"}, check_pending=False)
     rows = fsm.transitions(prog)
+    rep.rule("PD-7", "when a second responder is detected while an exchange is still being measured, that exchange is "
+                     "discarded (peer_delay_state reset) so it cannot complete and un-fault the port", floor=2)
+    for r in rows:
+        b = r["body"]
+        if (r["to"] or set()) == {"Faulty"}:
+            vs = None
+            for l in r["lits"]:
+                if l[0] == "variant" and l[3] == "PeerDelayState":
+                    vs = set(l[2]) if vs is None else vs & set(l[2])
+            if vs == {"Measuring"}:
+                sts7, pv7 = stores(b)
+                g7 = mir.cfg(b)
+                resets = [s7 for s7 in sts7 if s7["lhs"] == "self.peer_delay_state" and
+                          df.canon(s7["tree"], b).startswith("PeerDelayState::Empty")]
+                ok7 = any(s7["bb"] == r["bb"] or g7.dominates(s7["bb"], r["bb"]) and g7.postdominates(r["bb"], s7["bb"]) or
+                          g7.postdominates(s7["bb"], r["bb"]) for s7 in resets)
+                if ok7:
+                    rep.ok("PD-7", b.key, "in-flight exchange discarded on ->Faulty", where=fc.where(b, r["line"]))
+                else:
+                    rep.violation("PD-7", b.key, "in-flight exchange discarded on ->Faulty",
+                                  "a second responder makes the port Faulty but the exchange being measured stays in "
+                                  "peer_delay_state: the first responder's pending follow-up then completes it, the "
+                                  "measurement of this doubly-answered exchange reaches the filter and the port leaves Faulty",
+                                  where=fc.where(b, r["line"]))
     for r in rows:
         b = r["body"]
         to = r["to"] or set()
@@ -110,8 +134,10 @@ def run(ctx):
             desc = g.reachable_from(r["bb"])
             region = (anc | desc) - {g.EXIT}
             sts, pv = stores(b)
+            # discarding the exchange (peer_delay_state = Empty) is not a use of the second response (PD-7 requires it)
             eff = ["store %s@L%d" % (s["lhs"], s["line"]) for s in sts
-                   if s["bb"] in region and "peer_delay_state" in s["lhs"] and not s["macro"]]
+                   if s["bb"] in region and "peer_delay_state" in s["lhs"] and not s["macro"] and
+                   not (s["lhs"] == "self.peer_delay_state" and df.canon(s["tree"], b).startswith("PeerDelayState::Empty"))]
             for bi, t, c in mir.iter_calls(b, name="handle_time_measurement"):
                 if bi in region:
                     eff.append("handle_time_measurement@L%d" % t["sp"][1])
